@@ -291,7 +291,7 @@ def run(r):
     quick = r.tier == "quick"
     stdlib = set(core.tables()["stdlib_modules"])
     rnd = random.Random(r.seed * 7 + 5)
-    bad, stats, tags = explore_handlers(r, rnd, int(os.environ.get("VERIF_H2_WORKSPACES", 30 if quick else 150)), stdlib)
+    bad, stats, tags = explore_handlers(r, rnd, int(os.environ.get("VERIF_H2_WORKSPACES", 30 if quick else 80)), stdlib)
     seen = set()
     for b in bad:
         if b["why"] in seen:
